@@ -112,6 +112,10 @@ func (c *FenceConn) BeginTx(ctx context.Context, opts driver.TxOptions) (driver.
 	}
 
 	if !tm.IsSeataContext(ctx) {
+		// do not leave the transaction that was just begun open on the connection
+		if err := tx.Rollback(); err != nil {
+			log.Error(err)
+		}
 		return nil, errors.New("there is not seata context")
 	}
 
@@ -124,20 +128,12 @@ func (c *FenceConn) BeginTx(ctx context.Context, opts driver.TxOptions) (driver.
 
 	fenceTx, err := c.TargetDB.BeginTx(ctx, &sql.TxOptions{})
 	if err != nil {
+		tm.SetFenceTxBeginedFlag(ctx, false)
+		if err := tx.Rollback(); err != nil {
+			log.Error(err)
+		}
 		return nil, err
 	}
-	defer func() {
-		if err != nil {
-			if err := fenceTx.Rollback(); err != nil {
-				log.Error(err)
-			}
-
-			// although it have not any db operations yet, is still rollback to avoid leak tx.
-			if err := tx.Rollback(); err != nil {
-				log.Error(err)
-			}
-		}
-	}()
 
 	// do fence operations
 	emptyCallback := func() error {
@@ -145,6 +141,14 @@ func (c *FenceConn) BeginTx(ctx context.Context, opts driver.TxOptions) (driver.
 	}
 
 	if err := WithFence(ctx, fenceTx, emptyCallback); err != nil {
+		// the fence refused this phase: end both transactions, nobody else can
+		tm.SetFenceTxBeginedFlag(ctx, false)
+		if err := fenceTx.Rollback(); err != nil {
+			log.Error(err)
+		}
+		if err := tx.Rollback(); err != nil {
+			log.Error(err)
+		}
 		return nil, err
 	}
 
